@@ -47,3 +47,23 @@ Qed.
 Lemma pair_priority_collision_outside_range :
   PairPriority false 0 true (2 ^ 31) 0 = PairPriority false 0 true 1 1 /\ (2 ^ 31, 0) <> (1, 1).
 Proof. split; [vm_compute; reflexivity | discriminate]. Qed.
+
+(* both agents sort any two distinct pairs the same way, and strictly: the controlling agent's
+   comparison of (l1,r1) with (l2,r2) is decided one way or the other, and the controlled agent's
+   comparison of the mirrored pairs gives the same answer *)
+Lemma pair_order_strict_and_agreed l1 r1 l2 r2 :
+  0 <= l1 < 2 ^ 31 -> 0 <= r1 < 2 ^ 31 -> 0 <= l2 < 2 ^ 31 -> 0 <= r2 < 2 ^ 31 ->
+  (l1, r1) <> (l2, r2) ->
+  (PairPriority false 0 true l1 r1 <? PairPriority false 0 true l2 r2) =
+    negb (PairPriority false 0 true l2 r2 <? PairPriority false 0 true l1 r1) /\
+  (PairPriority false 0 true l1 r1 <? PairPriority false 0 true l2 r2) =
+    (PairPriority false 0 false r1 l1 <? PairPriority false 0 false r2 l2).
+Proof.
+  intros H1 H2 H3 H4 Hne.
+  assert (B : 2 ^ 31 < 2 ^ 32) by reflexivity.
+  split; [|apply pair_order_agrees; lia].
+  destruct (pair_priority_no_ties true l1 r1 l2 r2 H1 H2 H3 H4 Hne) as [H|H];
+    destruct (Z.ltb_spec (PairPriority false 0 true l1 r1) (PairPriority false 0 true l2 r2));
+    destruct (Z.ltb_spec (PairPriority false 0 true l2 r2) (PairPriority false 0 true l1 r1));
+    try reflexivity; lia.
+Qed.
